@@ -182,7 +182,10 @@ def main(tier):
             if res.violated:
                 c = ch[int(res.state["tid"]) - 1]
                 pr = next(p for p in progs if p["id"] == c["id"])
+                # the backend module lives as long as the process: what an earlier program of the batch left behind is part of the
+                # history, so the replay runs the batch's first program and the reported one in one process, as the check did
                 run.violation({"stage": "p=%s" % (smallp or "bn128"), "invariant": res.violated, "tlc_state": res.state, "smallp": smallp, "program": pr,
+                               "preceding": [progs[0]] if progs[0]["id"] != pr["id"] else [],
                                "summary": "%s for files of program %s (%s)" % (res.violated, c["id"], "p=251" if smallp else "bn128 prime")})
         if run.violations:
             break
@@ -196,9 +199,10 @@ def main(tier):
 def replay(rec):
     run = common.Run("C10", "quick")
     smallp = rec.get("smallp", 251)
+    batch = list(rec.get("preceding", [])) + [rec["program"]]
     with common.scratch("snarkjs_") as d:
-        runs = run_backend("snarkjs", smallp or None, [rec["program"]], d)
-        cases = cases_for(runs, [rec["program"]], smallp)
+        runs = run_backend("snarkjs", smallp or None, batch, d)
+        cases = cases_for(runs, batch, smallp)
     res = common._tlc_on_chunk("SnarkjsFile", "SnarkjsFile.cfg", {"cases": cases}, 2, False, False, "3g")
     run.add_tlc(res, "replay")
     print("replay: %s" % ("violation reproduced (%s)" % res.violated if res.violated else "no violation on the current tree"))
